@@ -9,6 +9,7 @@ S=/dev/shm/blsim-sens-$$
 B=/dev/shm/blsim-sens-build-$$   # one build directory per invocation: two invocations must never swap binaries
 mkdir -p $B
 list=$(ls mutants/${pre}*.diff 2>/dev/null)
+[ -n "$ONLY_SEEDED" ] && list=""
 [ -n "$ALL" ] && list="$list $(ls seeded/${pre}*/patch.diff 2>/dev/null)"
 fail=0
 for patch in $list; do
